@@ -26,7 +26,9 @@ Inductive frole :=
 | FChecker                     (* [decorate_with_checker.wrapper] *)
 | FForeign (mark : nat)        (* some other decorator that used functools.wraps *)
 | FInvWrap (is_init : bool)    (* [_decorate_with_invariants.wrapper] *)
-| FNewWrap.                    (* [_decorate_new_with_invariants.wrapper] *)
+| FNewWrap                     (* [_decorate_new_with_invariants.wrapper] *)
+| FPassOn.                     (* a special method the library gives a class that lacks it: it calls the next
+                                  definition along the resolution order of the instance's class *)
 
 Record fobj := {
   fo_role : frole;
@@ -581,9 +583,10 @@ Definition dir_names (w : world) (k : nat) : list string :=
   let names := flat_map (fun c => match get_class w c with Some co => map fst (co_ns co) | None => [] end) (mro_of w k) in
   fold_left (fun acc n => if str_in n acc then acc else acc ++ [n]) (names ++ object_slots) [].
 
-(** a slot wrapper of [object] is represented by a function object created on demand *)
+(** where a class only has a slot wrapper of [object], the checks go around a method created on demand which
+    passes the call on ([super(cls, self).<name>(...)]) *)
 Definition slot_function (w : world) (name : string) : world * nat :=
-  add_func w {| fo_role := FOrig; fo_wrapped := None; fo_pre := None; fo_snaps := None; fo_post := None;
+  add_func w {| fo_role := FPassOn; fo_wrapped := None; fo_pre := None; fo_snaps := None; fo_post := None;
                 fo_sig := {| posonly := [{| pname := "self"; pdefault := None |}]; poskw := [];
                              varpos := Some "args"; kwonly := []; varkw := Some "kwargs" |};
                 fo_async := false; fo_owner := List.length (w_funcs w) |}.
